@@ -13,7 +13,7 @@ REQUIRED = ['getNBest_tie', 'getNBest_fits', 'getNBest_everyone', 'getNBest_leng
             'below_never_elected', 'getNBest_strictMono_map', 'plurality_eq', 'quotaSelector_ok',
             'sorted_votes_desc_spec', 'sorted_votes_asc_spec', 'sorted_votes_level_sets_agree', 'elected_stays_elected']
 NAME_MODES = ['str', 'int0', 'empty0', 'person', 'tuple']
-REQUIRED_COUNTERS = ['hash_alike_sequence', 'falsy_first_below_cut', 'sorted_votes', 'boundary_tie', 'level_fits', 'negative_value', 'all_elected', 'fraction', 'decimal', 'quota_selector', 'sequence_on_one_object', 'seq_quota_selector', 'seq_plurality']
+REQUIRED_COUNTERS = ['hash_alike_sequence', 'falsy_first_below_cut', 'sorted_votes', 'boundary_tie', 'level_fits', 'negative_value', 'all_elected', 'fraction', 'decimal', 'quota_selector', 'sequence_on_one_object', 'seq_quota_selector', 'seq_plurality', 'many_over_quota_select']
 RULE = ('1-8 candidates, values from tie-forcing small sets (incl. negatives/zero), Fractions, Decimals and integers up to '
         '10^30; n from 1 to len+2; ops get_n_best, plurality, quota_selector(select/error). Non-trivial = at least two '
         'candidates and a result that is not an error; distinct by canonical request.')
@@ -75,6 +75,28 @@ def generate(rng, tier):
             q = rng.choice(QUOTAS)
             yield _mk('quota_selector', vals, rng.randint(1, m), ['quota_selector'], quota=q,
                       accept_equal=rng.random() < 0.5, on_more=rng.choice(['select', 'select', 'error']))
+    # directed: MANY candidates over the quota in 'select' mode (n_seats + 2 and more: low or constant quotas, zero / negative totals),
+    # the best of them listed LATE in the dictionary - the cut must be taken over all qualifiers, not over the first n_seats + 1
+    for k in range(60 if tier == 'quick' else 1500):
+        m = rng.randint(4, 8)
+        n = rng.randint(1, max(1, m - 3))
+        mode = rng.choice(['imperiali_level', 'constant', 'constant_decimal', 'negative_total'])
+        if mode == 'imperiali_level':
+            base = rng.randint(30, 50)
+            vals = sorted([base + rng.choice([0, 0, 1, 2]) for _ in range(m)])          # ascending: the strongest come last
+            q = 'imperiali'
+        elif mode == 'negative_total':
+            vals = [-rng.randint(1, 9) for _ in range(m)]
+            q = 'hare'
+        else:
+            vals = [rng.randint(3, 20) for _ in range(m)]
+            if mode == 'constant_decimal':
+                vals = [Decimal(v) / 2 for v in vals]
+            vals = sorted(vals)
+            q = rng.choice(['0', '1', '5/2', '3'])
+        if rng.random() < 0.3:
+            rng.shuffle(vals)
+        yield _mk('quota_selector', vals, n, ['quota_selector', 'many_over_quota_select'], quota=q, accept_equal=rng.random() < 0.5, on_more='select')
     # sequences on ONE object: a candidate that reached the quota (or was elected) in an earlier call is absent from, or far below the
     # cut in, a later call; configurations of the selector stay fixed within a sequence
     for k in range(80 if tier == 'quick' else 1500):
@@ -175,9 +197,18 @@ def impl(case):
         return guarded(lambda: enc_selection(vcore.Plurality().evaluate(votes, n), NAMES))
     if case['op'] == 'quota_selector':
         return guarded(lambda: enc_selection(
-            vapp.QuotaSelector(case['quota'], accept_equal=case['accept_equal'],
+            vapp.QuotaSelector(_quota_arg(case['quota']), accept_equal=case['accept_equal'],
                                on_more_over_quota=case['on_more']).evaluate(votes, n), NAMES))
     raise ValueError(case['op'])
+
+
+def _quota_arg(q):
+    """a registered quota name, or a number given as text = quota.constant(number) (the driver reads the same text as a constant)"""
+    import votelib.component.quota as vq
+    try:
+        return vq.constant(Fraction(q))
+    except ValueError:
+        return q
 
 
 def _impl_seq(case):
@@ -189,7 +220,7 @@ def _impl_seq(case):
     if first['op'] == 'plurality':
         ev = vcore.Plurality()
     else:
-        ev = vapp.QuotaSelector(first['quota'], accept_equal=first['accept_equal'], on_more_over_quota=first['on_more'])
+        ev = vapp.QuotaSelector(_quota_arg(first['quota']), accept_equal=first['accept_equal'], on_more_over_quota=first['on_more'])
     return [guarded(lambda sub=sub: enc_selection(ev.evaluate(_votes(sub), sub['n']), NAMES)) for sub in case['calls']]
 
 
@@ -260,7 +291,10 @@ def oracle(case, obs):
     if case['op'] == 'quota_selector':
         import votelib.component.quota as vq
         total = sum(vals.values())
-        q = Fraction(vq.get(case['quota'])(total, n))
+        try:
+            q = Fraction(case['quota'])                       # a constant quota
+        except ValueError:
+            q = Fraction(vq.get(case['quota'])(total, n))
         over = {c: v for c, v in vals.items() if v > q or (case['accept_equal'] and v == q)}
         if len(over) > n and case['on_more'] == 'error':
             return [] if obs == {'err': 'VotingSystemError'} else [('quota_error_expected', str(obs))]
